@@ -40,6 +40,9 @@ def run(tier, seed):
     rep = Report(PID, tier, seed, "translation_validation")
     po = proof_obligations("WowVerif.Thm.C18", ["wowdrv"])
     add_proof_failures(rep, po)
+    po2 = proof_obligations("WowVerif.Thm.C17b")      # trace_accounts: the prescribed field list accounts for the whole encoding
+    add_proof_failures(rep, po2)
+    po = dict(po, theorems=dict(po["theorems"], **po2["theorems"]), obligations=po["obligations"] + po2["obligations"], discharged=po["discharged"] + po2["discharged"])
     objs = wowm.load_tree(os.path.join(REPO, "wow_message_parser/wowm"))
     by_pos = collections.defaultdict(list)
     for o in objs:
